@@ -8,28 +8,18 @@ import tables
 def check(rep, tier, replay=None):
     rep.explanations.append(
         "C13: Q1 knot-continuity / suffix-sum identities of the constexpr cardinal B-spline tables (K=1..6) discharged by static_assert "
-        "(necessary and, on vector spaces, sufficient for C^(K-1), locality and constant reproduction); Q2 window and clamping of "
-        "BSpline::operator() by abstract execution of its interval selection over exact rationals; optional outputs defined on all "
-        "paths; chain-rule factors by dimension analysis.")
+        "(necessary and, on vector spaces, sufficient for C^(K-1), locality and constant reproduction); M7 BSpline::operator() abstractly executed (engine M): window, clamping, basis in use, "
+        "1/dt scaling and definedness of the optional outputs.")
     rep.trusted.update(["clang++-16 front end", "g++ 12 constant evaluator", "lib/pe.py"])
     rep.assumptions.append("left-equivariance and continuity on curved groups rest on C11 (cumulative evaluation), not decided here")
     kmax = 6 if tier == "quick" else 8
     tables.run(rep, "Q1", tables.knot_witnesses(1, kmax) + [w for w in tables.basis_witnesses(kmax) if "Bspline" in w.id],
                "cardinal B-spline tables: knot continuity up to order K-1, suffix sums, equality with Cox-de Boor definition, partition of unity", 20,
                second_compiler=(tier == "thorough"))
-    d = fe.ast_dumps(["Spline", "cspline_eval"])
-    idx = A.index(d["Spline"])
+    d = fe.ast_dumps(["cspline_eval"])
     idx_cs = A.index(d["cspline_eval"])
-    rep.unit("umbrella TU filtered Spline / cspline_eval; 1 batched static_assert TU")
-    # the table used by BSpline::operator() is the cumulative B-spline basis
-    bs = splines.one(rep, idx, "BSpline::operator()")
-    rep.rule("Q1b", "BSpline evaluates with polynomial_cumulative_basis<Bspline, K>", minimum=1)
-    if bs is not None:
-        ok = "polynomial_cumulative_basis<PolynomialBasis::Bspline,K,double>()" in A.ntext(A.body(bs.node))
-        rep.instance("Q1b", "BSpline::operator()", "basis", ok=ok, sample={"file": fe.rel(bs.file), "line": bs.line})
-        if not ok:
-            rep.broke("BSpline::operator() no longer uses polynomial_cumulative_basis<Bspline,K,double>(); Q1 does not cover the table in use")
-    splines.check_q2(rep, idx)
-    splines.check_s4(rep, idx, idx_cs, ["BSpline::operator()"])
-    splines.check_s5_bspline(rep, idx)
+    rep.unit("umbrella TU filtered BSpline / cspline_eval; 1 batched static_assert TU")
+    # BSpline::operator(): window, clamping, basis in use, output scaling and definedness by abstract execution (engine M)
+    import splinem
+    splinem.check_bspline(rep, tier)
     splines.check_x1(rep, idx_cs)
